@@ -10,5 +10,5 @@ Separate Extraction
   api_codec_enc api_codec_dec api_codec_vlq chk_C12_enc chk_C12_dec
   api_rope api_rope_check api_rope_valid
   api_tree concat_new api_check_tree api_rhist api_check_rhist api_thist api_chist api_pair api_check_hist api_check_pair api_panic_class api_writer api_check_writer api_comp api_check_comp api_json_value api_json_doc api_check_json_value api_check_json_doc
-  api_sched_replace chk_C18_replace api_sched_cached chk_C18_cached key_hop
+  api_sched_replace chk_C18_replace api_sched_cached api_sched_locked chk_C18_cached key_hop
   N.of_nat N.to_nat Z.of_N Z.to_N N.add N.mul N.eqb.
